@@ -10,7 +10,7 @@ from tartiflette import Resolver, Directive, Scalar, TypeResolver
 
 META = {
     "bounds": "10 SDL models in up to 3 declaration orders (minimal; every kind once; wrappers to depth 3; defaults of every literal kind; `extend` of every kind + custom root names; custom directives / "
-              "@deprecated / @nonIntrospectable; schema-level @nonIntrospectable; implementers declared before/after their interface; names starting with one underscore on every element kind; a directive-only `extend schema` followed by further extensions; one definition per file, files without trailing newline ending in a bare name / comment / string) x 4 ways of supplying the SDL (string, file, list of files, directory); "
+              "@deprecated / @nonIntrospectable; schema-level @nonIntrospectable; implementers declared before/after their interface; names starting with one underscore on every element kind; a directive-only `extend schema` followed by further extensions; one definition per file, files without trailing newline ending in a bare name / comment / string) x 4 ways of supplying the SDL (string, file, list of files, directory) through create_engine, + Engine()/cook() two-step instantiation for 3 models; "
               "`__type(name:)` argument symbolic (all strings); includeDeprecated absent/null/true/false",
     "outside": "SDL outside the 7 models (the lark grammar/transformers only ever see these concrete renderings: a finite catalogue); declared names themselves are concrete "
                "(bake inserts them into dicts, which realises a symbolic name)",
@@ -120,6 +120,7 @@ for _n in ("M2", "M5", "M7"):
     _o = _orders(MODELS[_n])
     MODELS[_n + "r"] = _o[1]; MODELS[_n + "h"] = _o[2]
 MODES = ["str", "file", "files", "dir"]
+TWO_STEP = [("M2", "init"), ("M2", "cook"), ("M5", "init"), ("M5", "cook"), ("M9", "cook")]      # Engine(...) + cook(...): the documented advanced instantiation (SDL as a string)
 TMP = os.path.join(VERIF, ".build", "tmp", "c11_%d" % os.getpid())
 
 
@@ -176,6 +177,13 @@ for _m in MODELS:
         if "My" in MODEL[_m]["types"]:
             Scalar("My", schema_name=_name)(_MyScalar)
         ENG[(_m, _mode)] = build(supply(_m, _mode), _name, query_cache_decorator=DictCache())
+for _m, _mode in TWO_STEP:
+    _name = "c11_%s_%s" % (_m, _mode)
+    for _d in MODEL[_m]["directives"]:
+        Directive(_d, schema_name=_name)(_Impl)
+    if "My" in MODEL[_m]["types"]:
+        Scalar("My", schema_name=_name)(_MyScalar)
+    ENG[(_m, _mode)] = env.build_two_step(supply(_m, "str"), _name, _mode, query_cache_decorator=DictCache())
 shutil.rmtree(TMP, ignore_errors=True)
 
 
@@ -195,7 +203,7 @@ for _k in ENG:
     env.run(ENG[_k].execute(TYPEQ, variables={"n": "Query"}))
 
 
-SH = [{"m": m, "mode": mode} for m in MODELS if m != "M6S" for mode in MODES]
+SH = [{"m": m, "mode": mode} for m in MODELS if m != "M6S" for mode in MODES] + [{"m": m, "mode": mode} for m, mode in TWO_STEP]
 
 
 @obligation(tier="quick", timeout=120, shards=SH,
